@@ -1201,11 +1201,14 @@ class CSSMatch(_DocumentNav):
                         check = False
                         has_name = False
                         for k, v in self.iter_attributes(child):
-                            if util.lower(k) == 'type' and util.lower(v) == 'radio':
+                            # Attribute names are case sensitive in XML, as in the selector that guards this check
+                            if not self.is_xml:
+                                k = util.lower(k)
+                            if k == 'type' and util.lower(v) == 'radio':
                                 is_radio = True
-                            elif util.lower(k) == 'name' and v == name:
+                            elif k == 'name' and v == name:
                                 has_name = True
-                            elif util.lower(k) == 'checked':
+                            elif k == 'checked':
                                 check = True
                             if is_radio and check and has_name and get_parent_form(child) is form:
                                 checked = True
